@@ -418,6 +418,11 @@ def cases_C13(rng, tier):
             for w in widths_for(MSG_TAG[ty]):
                 tb = head(6, MSG_TAG[ty], w) + body
                 out.append(case("dectag", ty, tb, fam="tag-head-widths", key=(ty, body)))
+    for ty, b in corpus(rng, Q(tier, 60, 600)):
+        for t in (61, 55799, 1, 24, 2, 18, 98):
+            tb = head(6, t) + b
+            out.append(case("dec", ty, tb, fam="base", key=(ty, tb)))
+            out.append(case("decval", ty, tb, fam="api-decode", key=(ty, tb), impl_only=True))
     return out
 
 def post_C13(cases, impl):
@@ -634,6 +639,31 @@ def cases_C03(rng, tier):
                 out.append(case("helperhex", "sign1.verify_signature", m1, b"aad", fam="decoded:sign1.verify", expect="ok 7367 " + pyspec.sig_structure("CoseSign1", p, None, b"aad", b"pl").hex()))
                 ms = enc(A(B(b"\xa0"), M(), B(b"pl"), A(A(B(p), u, B(b"s0")))), rng if style else None, style="nobignum")
                 out.append(case("helperhex", "sign.verify_signature", ms, b"\x00", b"aad", fam="decoded:sign.verify", expect="ok 7330 " + pyspec.sig_structure("CoseSignature", b"\xa0", p, b"aad", b"pl").hex()))
+    for p_, pb in product_prots():
+        if p_[1][0] != NULL: continue
+        aad, pl, k = b"external aad", b"the payload", b"kk"
+        hdr = p_[1][1]
+        for opn in ("create_signature", "try_create_signature"):
+            ops = [A(T("protected"), hdr), A(T("payload"), B(pl)), A(T(opn), B(aad), A(I(0), B(k)))]
+            want = k + pyspec.sig_structure("CoseSign1", pb, None, aad, pl)
+            out.append(case("build", "CoseSign1", enc(('a', ops)), fam="product:" + opn,
+                            check=lambda c, o, w=want: None if ("h" + w.hex()) in o else "signature created over other bytes than the Sig_structure"))
+        for opn in ("create_detached_signature", "try_create_detached_signature"):
+            ops = [A(T("protected"), hdr), A(T(opn), B(pl), B(aad), A(I(0), B(k)))]
+            want = k + pyspec.sig_structure("CoseSign1", pb, None, aad, pl)
+            out.append(case("build", "CoseSign1", enc(('a', ops)), fam="product:" + opn,
+                            check=lambda c, o, w=want: None if ("h" + w.hex()) in o else "signature created over other bytes than the Sig_structure"))
+        sg = d_signature(d_protected(None, hdr), D_EMPTY_HEADER, b"")
+        for opn in ("add_created_signature", "try_add_created_signature"):
+            ops = [A(T("protected"), hdr), A(T("payload"), B(pl)), A(T(opn), sg, B(aad), A(I(0), B(k)))]
+            want = k + pyspec.sig_structure("CoseSignature", pb, pb, aad, pl)
+            out.append(case("build", "CoseSign", enc(('a', ops)), fam="product:" + opn,
+                            check=lambda c, o, w=want: None if ("h" + w.hex()) in o else "signature created over other bytes than the Sig_structure"))
+        for opn in ("add_detached_signature", "try_add_detached_signature"):
+            ops = [A(T("protected"), hdr), A(T(opn), sg, B(pl), B(aad), A(I(0), B(k)))]
+            want = k + pyspec.sig_structure("CoseSignature", pb, pb, aad, pl)
+            out.append(case("build", "CoseSign", enc(('a', ops)), fam="product:" + opn,
+                            check=lambda c, o, w=want: None if ("h" + w.hex()) in o else "signature created over other bytes than the Sig_structure"))
     return out
 
 def post_injective(cases, impl):
@@ -1326,6 +1356,14 @@ def cases_C12(rng, tier):
     for a, b in itertools.permutations(cpool, 2):
         out.append(case("dec", "ClaimsSet", enc(M((a, I(1)), (b, I(2)), (a, I(3)))), fam="dup-around:ClaimsSet", expect="err:Dup", strict_err=True))
         out.append(case("dec", "ClaimsSet", enc(M((a, I(1)), (b, I(2)))), fam="distinct-pair:ClaimsSet", expect_re=r"ok .*"))
+    for kty in (I(4), I(99), I(0), T("x")):
+        for a in (I(-1), I(2), T("y"), I(1)):
+            for order in (0, 1, 2):
+                es = [(a, I(1)), (a, I(2))] if a != I(1) else [(I(1), kty), (I(1), kty)]
+                if a != I(1): es.insert(order, (I(1), kty))
+                km = enc(('m', es))
+                out.append(case("dec", "CoseKeySet", b"\x81" + km, fam="dup-in-keyset", expect_re=r"err:\w+"))
+                out.append(case("dec", "CoseKeySet", b"\x82" + enc(M((I(1), I(4)))) + km, fam="dup-in-keyset", expect_re=r"err:\w+"))
     return out
 
 # ================================================================= C20
